@@ -38,13 +38,37 @@ def model_inputs(model, inputs: Dict[str, Any]) -> Dict[str, str]:
     return out
 
 
+class _Watchdog:
+    """z3's soft timeout is not honoured by every tactic: interrupt the context from a timer thread as a hard stop."""
+
+    def __init__(self, seconds: float):
+        import threading
+        self.t = threading.Timer(seconds, lambda: z3.main_ctx().interrupt())
+        self.t.daemon = True
+
+    def __enter__(self):
+        self.t.start()
+
+    def __exit__(self, *a):
+        self.t.cancel()
+        return False
+
+
+def _check(s: z3.Solver, budget_ms: int):
+    try:
+        with _Watchdog(budget_ms / 1000.0 + 2.0):
+            return s.check()
+    except z3.Z3Exception:
+        return z3.unknown
+
+
 def discharge(ob: Obligation, *, budget_ms: int = 5000, inputs: Optional[Dict[str, Any]] = None,
               want_smt2: bool = False, try_mbqi: bool = True) -> Obligation:
     t0 = time.time()
     s = _solver(False, budget_ms)
     s.add(*ob.hyps)
     s.add(z3.Not(ob.goal))
-    r = s.check()
+    r = _check(s, budget_ms)
     if r == z3.unsat:
         ob.status, ob.backend = 'discharged', 'z3-5.1 (e-matching)'
     elif not try_mbqi:
@@ -53,7 +77,7 @@ def discharge(ob: Obligation, *, budget_ms: int = 5000, inputs: Optional[Dict[st
         s2 = _solver(True, budget_ms)
         s2.add(*ob.hyps)
         s2.add(z3.Not(ob.goal))
-        r2 = s2.check()
+        r2 = _check(s2, budget_ms)
         if r2 == z3.unsat:
             ob.status, ob.backend = 'discharged', 'z3-5.1 (mbqi)'
         elif r2 == z3.sat:
@@ -75,7 +99,7 @@ def discharge(ob: Obligation, *, budget_ms: int = 5000, inputs: Optional[Dict[st
             else:
                 ob.status, ob.backend = 'undecided', f'z3-5.1 {r}/{r2}'
         else:
-            ob.status, ob.backend = 'undecided', f'z3-5.1 {r}/{r2} ({s.reason_unknown()})'
+            ob.status, ob.backend = 'undecided', f'z3-5.1 {r}/{r2} (timeout or incomplete)'
     if want_smt2 or ob.status != 'discharged':
         try:
             s3 = z3.Solver()
